@@ -4,7 +4,7 @@
 D=$1; P=$2; T=${3:-quick}; S=${4:-1}
 cd /verif
 echo "== demo with change:"; PYTHONPATH=$D timeout 600 /venv/bin/python $D/seed/demo.py 2>&1 | grep -v conda | tail -3; echo "exit=${PIPESTATUS[0]}"
-git -C $D stash -q; echo "== demo without change:"; PYTHONPATH=$D timeout 600 /venv/bin/python $D/seed/demo.py 2>&1 | grep -v conda | tail -2; echo "exit=${PIPESTATUS[0]}"; git -C $D stash pop -q
+git -C $D apply -R $D/seed/patch.diff; echo "== demo without change:"; PYTHONPATH=$D timeout 600 /venv/bin/python $D/seed/demo.py 2>&1 | grep -v conda | tail -2; echo "exit=${PIPESTATUS[0]}"; git -C $D apply $D/seed/patch.diff
 echo "== suite with change:"; harness/baseline.sh $D
 echo "== check $P ($T) on the changed tree:"
 VERIF_REPO=$D VERIF_SEED=$S timeout 3000 ./check $P --tier $T > /tmp/seedtest_$P.log 2>&1; echo "check exit=$?"
